@@ -63,7 +63,10 @@ CHECKS = {
         text="Generated C++ programs observe the user-supplied formatter and sinks of the real logger: 3 logger types "
              "per program (sink::sequence of 1-3 recording sinks, filter TYPES from and/or/not over severity_filter "
              "leaves incl. double negation), 14 statements per logger in both syntactic forms, tagged and untagged, "
-             "0-6 streamed items of 9 kinds; each program is compiled for all 6 compile-time minima and loops over ALL "
+             "0-6 streamed items of 12 kinds, plus statements whose lifetimes overlap on one thread (a statement between the "
+             "insertions of a named stream, two named streams alive at once, a lazily evaluated callable that itself logs), "
+             "a tag variable that changes after the statement started, a sticky manipulator and an inserter that fails the "
+             "buffer; each program is compiled for all 6 compile-time minima and loops over ALL "
              "threshold vectors; between a statement's markers the events must be exactly nothing or one formatter "
              "call then one sink call per sequence member in order with the statement's severity, tag and "
              "concatenated message. ASan/UBSan watch the record/buffer ownership along the << chain.",
@@ -113,15 +116,16 @@ CHECKS = {
     ),
     "C09": dict(
         category="exploration", engine="mtlog",
-        text="std::cout/std::cerr get a deliberately non-thread-safe stream buffer (plain cursor, two-half copy with a "
-             "seeded yield in between, overlap detector on relaxed atomics so that no happens-before edge is added) "
+        text="std::cout/std::cerr get a deliberately non-thread-safe two-stage stream buffer (writes fill a staging area in "
+             "two halves with a seeded yield in between, flushes drain it into the capture, all through plain variables; "
+             "overlap detector on relaxed atomics so that no happens-before edge is added) "
              "and 2-16 threads log 200-2000 records each through four sink topologies, incl. two logger TYPES sharing "
              "stdout_mt; an offline checker parses the capture (whole records only, exactly once, per-thread order, "
              "count); the same workload runs under gcc ThreadSanitizer (thorough: also clang TSan and ASan). Evidence "
              "reports contended buffer entries and distinct thread orders observed.",
         design_ref="DESIGN.md section 4, C09",
         note="Schedules are sampled and perturbed, never exhausted: the claim is 'held on these N schedules'. "
-             "A concurrent flush of the tied std::cout by std::cerr is not counted as a write overlap.",
+             "In the combined stdout+stderr topology the cerr-cout tie is removed (DESIGN.md section 5, last paragraph).",
         technique="race-detecting stream buffer + offline history checker + ThreadSanitizer, schedule perturbation",
     ),
     "C10": dict(
